@@ -20,7 +20,7 @@ func init() {
 	register("C05", PropertyMeta{
 		Technique: "lock-coverage analysis of Pause against the handler call sites + decision tables for the pause flag protocol",
 		Explanation: "Decides, per engine: Pause is a quiescent point only if (a) it returns holding a lock that the run loop holds around every handler execution (parallel engine: pauseLock held across determineWhatToRun, runRound and its WaitGroup wait), or (b) it blocks on an acknowledgement from the run loop. " +
-			"Also: the serial run loops test the pause flag before every dispatch and wait for resume when it is set; waitForResume returns only when the flag is clear; Continue clears the flag and wakes the waiter under the mutex the waiter uses.",
+			"Also: the serial run loops test the pause flag before every dispatch and wait for resume when it is set; waitForResume returns only when the flag is clear; Continue clears the flag and wakes the waiter under the mutex the waiter uses. (window-contract, round-barrier, run-loop) the monitor's inspection window never resumes an engine the user paused, and the parallel engine's round barrier sits inside the pause lock (decided by the C40 and C04 code).",
 		NotDecided:  "timing of the pause; that every event is still handled after Continue follows from C01's Run clause.",
 		Assumptions: []string{"sync.Mutex/sync.Cond semantics as documented"},
 	}, runC05)
@@ -368,6 +368,10 @@ func runC04(c *Ctx) {
 }
 
 func runC05(c *Ctx) {
+	// the monitor pauses and resumes the engine on the user's behalf: an
+	// inspection during a user pause must not resume it (no handler starts until
+	// Continue is called)
+	c.Sub([]string{"window-contract"}, runC40)
 	p := c.P
 	dom := []int{0, 1, 2}
 
